@@ -264,8 +264,10 @@ func (e *Enc) staticCall(f *frame, st *State, in *ssa.Call, callee *ssa.Function
 	}
 	// no contract: havoc result and the callee's type-level mod-set
 	e.noteHavoc("call " + name)
-	mods, top := e.w.modSetOf(callee, in.Common())
+	mods, top := e.w.modSetOf(callee, in.Common(), in.Parent())
+	preH := st.clone()
 	e.havocHeaps(st, mods, top, "", false)
+	e.preserveLocals(f, in, preH, st)
 	e.havocGhosts(st, mods, top)
 	nn := e.fresh("next", "Int")
 	e.assume(fmt.Sprintf("(>= %s %s)", nn, st.next))
@@ -383,11 +385,12 @@ func (e *Enc) contractCall(f *frame, st *State, in *ssa.Call, callee *ssa.Functi
 	if fc.HasModifies {
 		// caller-side frame obligation: what the callee may write must be allowed here too
 		e.calleeFrame(f, st, in, callee, fc, args)
-		mods, _ := e.w.modSetOf(callee, in.Common())
+		mods, _ := e.w.modSetOf(callee, in.Common(), in.Parent())
 		e.applyModifies(st, fc, callee, args, mods, nextAtCall)
 	} else {
-		mods, top := e.w.modSetOf(callee, in.Common())
+		mods, top := e.w.modSetOf(callee, in.Common(), in.Parent())
 		e.havocHeaps(st, mods, top, "", false)
+		e.preserveLocals(f, in, pre, st)
 		e.havocGhosts(st, mods, top)
 		if e.fc != nil && e.fc.HasModifies && e.noObl == 0 && (top || len(heapNames(mods)) > 0) {
 			e.oblige("frame", "call:"+name+"@"+e.site(in), in.Pos(), "false", e.frameProps(), "callee without modifies clause may write "+strings.Join(heapNames(mods), ","))
@@ -417,6 +420,20 @@ func (e *Enc) contractCall(f *frame, st *State, in *ssa.Call, callee *ssa.Functi
 		penv.vars[n] = rv
 		if len(names) == 1 {
 			penv.vars["result"] = rv
+		}
+	}
+	// calls the callee makes through its function-typed parameters: results exist, values unknown
+	if len(fc.FnParams) > 0 {
+		if e.dynResults == nil {
+			e.dynResults = map[string]Val{}
+		}
+		for i, p := range callee.Params {
+			if _, ok := fc.FnParams[p.Name()]; ok {
+				if sig, ok := p.Type().Underlying().(*types.Signature); ok {
+					_ = i
+					e.dynResults[p.Name()] = e.freshVal(shapeOf(sig.Results()), "dyn_"+sanitize(p.Name()))
+				}
+			}
 		}
 	}
 	// fresh() inside a callee's post-condition means: allocated during the call
@@ -540,7 +557,64 @@ func (e *Enc) calleeFrame(f *frame, st *State, in *ssa.Call, callee *ssa.Functio
 	}
 }
 
+// fnTypeCall: a call through a function value whose signature has a declared contract.
+func (e *Enc) fnTypeCall(f *frame, st *State, in *ssa.Call, fc *FuncContract, fv Val, args []Val, resShape *Shape) Val {
+	env := &SpecEnv{vars: map[string]Val{}, st: st, fc: fc}
+	for i, n := range fc.ParamNames {
+		if i < len(args) {
+			env.vars[n] = args[i]
+		}
+	}
+	e.oblige("nil", e.site(in), in.Pos(), fmt.Sprintf("(not (= %s 0))", fv.T), e.safetyProps(), "")
+	for k, c := range fc.Requires {
+		goal := e.safeEvalBool(c, env)
+		e.oblige("pre", fmt.Sprintf("%s/requires%d@%s", fc.Name, k+1, e.site(in)), in.Pos(), goal, e.callProps(c), c.Text)
+	}
+	pre := st.clone()
+	mods := map[string]bool{}
+	top := false
+	for _, cand := range e.w.fnValuesOfType(fc.FnType) {
+		m, t := e.w.modSetOf(cand, nil, nil)
+		for k := range m {
+			mods[k] = true
+		}
+		top = top || t
+	}
+	e.havocHeaps(st, mods, top, "", false)
+	e.preserveLocals(f, in, pre, st)
+	e.havocGhosts(st, mods, top)
+	nn := e.fresh("next", "Int")
+	e.assume(fmt.Sprintf("(>= %s %s)", nn, st.next))
+	st.next = nn
+	res := e.freshVal(resShape, f.prefix+in.Name())
+	e.assumeLoaded(st, res)
+	penv := &SpecEnv{vars: map[string]Val{}, st: st, old: pre, fc: fc}
+	for i, n := range fc.ParamNames {
+		if i < len(args) {
+			penv.vars[n] = args[i]
+		}
+	}
+	if resShape.K == KTuple {
+		for i := range res.Sub {
+			penv.vars[fmt.Sprintf("result%d", i)] = res.Sub[i]
+		}
+	} else {
+		penv.vars["result"] = res
+		penv.vars["result0"] = res
+	}
+	for _, c := range fc.Ensures {
+		e.assume(e.safeEvalBool(c, penv))
+	}
+	e.usedContracts[fc.Name] = true
+	return res
+}
+
 func (e *Enc) dynamicCall(f *frame, st *State, in *ssa.Call, fv Val, args []Val, resShape *Shape) Val {
+	if ftc := e.w.fnTypeContract(in.Common().Value.Type()); ftc != nil {
+		if _, isParam := in.Common().Value.(*ssa.Parameter); !isParam || e.fc == nil || e.fc.FnParams[in.Common().Value.Name()] == nil {
+			return e.fnTypeCall(f, st, in, ftc, fv, args, resShape)
+		}
+	}
 	// contract attached to a function-typed parameter: "fnparam <name> modifies ..."
 	name := in.Common().Value.Name()
 	if p, ok := in.Common().Value.(*ssa.Parameter); ok {
@@ -561,7 +635,9 @@ func (e *Enc) dynamicCall(f *frame, st *State, in *ssa.Call, fv Val, args []Val,
 	if top {
 		e.noteHavoc("dynamic call " + name)
 	}
+	preH := st.clone()
 	e.havocHeaps(st, mods, top, "", false)
+	e.preserveLocals(f, in, preH, st)
 	e.havocGhosts(st, mods, top)
 	if top && e.fc != nil && e.fc.HasModifies && e.noObl == 0 {
 		e.oblige("frame", "dyncall@"+e.site(in), in.Pos(), "false", e.frameProps(), "dynamic call may write anything")
@@ -571,6 +647,10 @@ func (e *Enc) dynamicCall(f *frame, st *State, in *ssa.Call, fv Val, args []Val,
 	st.next = nn
 	res := e.freshVal(resShape, f.prefix+in.Name())
 	e.assumeLoaded(st, res)
+	if e.dynResults == nil {
+		e.dynResults = map[string]Val{}
+	}
+	e.dynResults[name] = res
 	return res
 }
 
@@ -614,7 +694,9 @@ func (e *Enc) invoke(f *frame, st *State, in *ssa.Call, recv Val, args []Val, re
 	if top {
 		e.noteHavoc("invoke " + key)
 	}
+	preH := st.clone()
 	e.havocHeaps(st, mods, top, "", false)
+	e.preserveLocals(f, in, preH, st)
 	e.havocGhosts(st, mods, top)
 	if e.fc != nil && e.fc.HasModifies && e.noObl == 0 && (top || len(heapNames(mods)) > 0) {
 		e.oblige("frame", "invoke:"+key+"@"+e.site(in), in.Pos(), "false", e.frameProps(), "interface method may write "+strings.Join(heapNames(mods), ","))
